@@ -251,11 +251,14 @@ def run_check(args):
                         samples.extend(r['samples'][:1])
                     relevant = sum(
                         1 for _, _, _, rs in violations
-                        if prop in rs['violation']['props'])
+                        if prop in rs['violation']['props'] and
+                        match_known(known, prop, rs['violation']) is None)
                     if len(violations) > 400:
                         violations[:] = [
                             x for x in violations
-                            if prop in x[3]['violation']['props']][:100]
+                            if prop in x[3]['violation']['props'] and
+                            match_known(known, prop,
+                                        x[3]['violation']) is None][:100]
                     stop = time.time() > deadline or relevant >= 20 \
                         or (max_cases and next_seed[0] - base >= max_cases)
                     if not stop:
